@@ -85,6 +85,7 @@ type adStat struct {
 	Early      int64 `json:"input_error_surfaced_early_cases,omitempty"`
 	MultiStop  int64 `json:"input_stopped_more_than_once_cases,omitempty"`
 	PostCancel int64 `json:"calls_judged_under_cancelled_context,omitempty"`
+	Unjudged   int64 `json:"cancellation_class_failure_unspecified_not_judged_cases,omitempty"`
 	Deviating  int64 `json:"deviating_cases,omitempty"`
 }
 
@@ -204,6 +205,7 @@ func (c *collector) add(name string, s adStat) {
 	t.Early += s.Early
 	t.MultiStop += s.MultiStop
 	t.PostCancel += s.PostCancel
+	t.Unjudged += s.Unjudged
 	t.Deviating += s.Deviating
 	c.mu.Unlock()
 }
@@ -343,6 +345,7 @@ func RunInto(o *core.Options, r *core.Report) {
 		"the deadline context is a context.Context implementation of the harness whose Done() closes and whose Err() turns into context.DeadlineExceeded when the harness says so (no wall clock)",
 		"stub inputs behave like the repository's own iterators: a cancelled context wins, after Stop they answer Done, an injected error is sticky",
 		"under a cancelled request context a call may answer the context's error at any point and nothing is judged after it; a value must still be the next one of the specified sequence and Done is accepted only where the specified sequence is complete; not judged under a cancelled context: Next/Head after Stop, and iterator.FromChannel (its select between ctx.Done() and the source channel is decided by the runtime)",
+		"adapters whose source carries the explicit storage.IterIsDoneOrCancelled classification (iterator.FromChannel, iterator.ToChannel, iterator.Stream, iterator.SkipTo) drive their sources with the caller's context and treat a cancellation-class source error as end of stream; a source failing that way while the caller's context is alive can only stem from a foreign context, which is outside their specification, and with the caller's context really cancelled both stopping silently and surfacing are acceptable: for these four, cancellation-class source failures (bare or wrapped values, cancelled/timed-out request context) are enumerated but NOT judged from the failure on (counted per adapter as cancellation_class_failure_unspecified_not_judged_cases); generic errors and Done look-alikes are judged there as everywhere; every other adapter (ordered merge, concatenation/combined, mappers, filtering, validation, condition filtering, Merge) is judged on the full failure-kind dimension",
 		"aspects the doc comments leave open are not judged: the call at which an input error surfaces (only: never a value beyond it, never Done instead of it; earlier is tolerated and counted), which error is reported when an input error and a filter error compete, every result after the first surfaced error (except: Next/Head after Stop), which tuple represents a key in NewOrderedCombinedIterator, multiplicity of in-input duplicates in iterator.Merge, inputs violating a stated precondition (unsorted inputs of ordered merges), calling a filter function on (drop, error) combinations",
 		"an input counts as closed when it was stopped or read to its Done (storage.RelationshipTupleReader.Read: 'close the TupleIterator, either by consuming the entire iterator or by closing it'); being stopped more than once is only counted",
 		"iterator.Error (a source without inputs whose Stop is documented nowhere) and the NextItemInSliceStreams helper are not covered",
@@ -483,6 +486,9 @@ func RunInto(o *core.Options, r *core.Report) {
 						st.MultiStop++
 					}
 					st.PostCancel += int64(out.post)
+					if out.unj {
+						st.Unjudged++
+					}
 					if failing == 0 && extras == 0 {
 						if strings.IndexByte(sc, 'C') >= 0 {
 							scriptCancel++
@@ -527,11 +533,12 @@ func RunInto(o *core.Options, r *core.Report) {
 		names = append(names, n)
 	}
 	sort.Strings(names)
-	var totIn, totNt, totPost int64
+	var totIn, totNt, totPost, totUnj int64
 	for _, n := range names {
 		totIn += col.per[n].Inputs
 		totNt += col.per[n].Nontrivial
 		totPost += col.per[n].PostCancel
+		totUnj += col.per[n].Unjudged
 	}
 	r.Set("seq_adapters_covered", names)
 	r.Set("seq_per_adapter", col.per)
@@ -546,6 +553,7 @@ func RunInto(o *core.Options, r *core.Report) {
 	r.Count("seq_input_tuples", totIn)
 	r.Count("seq_nontrivial_cases", totNt)
 	r.Count("seq_calls_judged_under_cancelled_context", totPost)
+	r.Count("seq_cancellation_class_failure_unspecified_not_judged_cases", totUnj)
 }
 
 func skipParam(ad *adapter, ins []InSpec, p int) bool {
@@ -600,6 +608,9 @@ func fixedSamples(r *core.Report, ads []*adapter) {
 		{"iterator.Merge", []InSpec{in("ab", "done"), in("bc", "done")}, 0, "NHN"},
 		{"storage.NewConditionsFilteredTupleKeyIterator", []InSpec{in("abc", "done")}, 2 + 3*1 + 9*0, "HNH"},
 		{"iterator.Concat", []InSpec{in("ba", "done"), in("c", "err")}, 0, "NNN"},
+		{"storage.NewOrderedCombinedIterator(ObjectMapper)/2", []InSpec{in("ab", "wrapped-deadline"), in("bc", "done")}, 0, "N+"},
+		{"storage.NewCombinedIterator/2", []InSpec{in("a", "deadline"), in("b", "done")}, 0, "H"},
+		{"storage.NewStaticTupleIterator", []InSpec{in("abc", "done")}, 0, "NCH"},
 	} {
 		for _, ad := range ads {
 			if ad.name != f.ad {
@@ -611,7 +622,7 @@ func fixedSamples(r *core.Report, ads []*adapter) {
 			if ad.paramDesc != nil {
 				pd = ad.paramDesc(f.p)
 			}
-			r.Sample(map[string]any{"adapter": ad.name, "inputs": f.ins, "param": pd, "script": f.script + " + epilogue (read to end, Stop, Next, Head)", "observed": tr, "deviation": out.class})
+			r.Sample(map[string]any{"adapter": ad.name, "inputs": f.ins, "param": pd, "script": f.script + " + epilogue (read to end, Stop, Next, Head); C = caller cancels, T = deadline passes, trailing + = Head before every Next of the epilogue", "observed": tr, "deviation": out.class})
 		}
 	}
 	_, _, tr := runStream([]InSpec{in("ab", "done"), in("c", "err")}, 0, "FNDF")
